@@ -10,7 +10,7 @@
 (***************************************************************************)
 EXTENDS MC_E1
 
-CONSTANTS MaxK, BaseMode,   \* BaseMode: "few" | "all"
+CONSTANTS MaxK, BaseMode,   \* BaseMode: "tiny" | "few" | "mid" | "all"; "tiny" also selects the small damage alphabet (for MaxK = 2)
           MaxPos            \* damage positions 0..MaxPos (the replayer takes them modulo the token count)
 
 VARIABLES dmg
@@ -28,7 +28,14 @@ DamageToks == {"(", ")", "[", "]", "{", "}", "DQ", "${", "%{", "~}", "<<EOT NL",
 InStringToks == {"\\ud800", "\\udfff", "\\U0000d800", "\\U00110000", "\\u12", "\\x41", "\\", "${", "%{", "$${", "~}", "NL", "DQ", "BADUTF", "NUL", "\\U0001F600"}
 
 Dmg(k, p, t) == [k |-> k, p |-> p, t |-> t]
-Damages ==
+SmallToks == {"(", "]", "{", "}", "DQ", "${", "%{", "<<EOT NL", "NL", ",", "BADUTF", "for"}
+SmallDamages ==
+    {Dmg("ins", p, t) : p \in 0..MaxPos, t \in SmallToks}
+    \cup {Dmg("rep", p, t) : p \in 0..MaxPos, t \in SmallToks}
+    \cup {Dmg("del", p, "") : p \in 0..MaxPos}
+    \cup {Dmg("trunc", p, "") : p \in 0..MaxPos}
+    \cup {Dmg("instr", 0, t) : t \in {"\\ud800", "${", "NL", "DQ"}}
+Damages == IF BaseMode = "tiny" THEN SmallDamages ELSE
     {Dmg("ins", p, t) : p \in 0..MaxPos, t \in DamageToks}
     \cup {Dmg("rep", p, t) : p \in 0..MaxPos, t \in DamageToks}
     \cup {Dmg("del", p, "") : p \in 0..MaxPos}
@@ -40,7 +47,8 @@ AllWraps(x) == WUn(x) \cup WArith(x) \cup WCmp(x) \cup WEq(x) \cup WLogic(x) \cu
 
 FewLeaves == {NVar("l"), NNum(2), StrLit("a")}
 MidLeaves == {NVar("l"), NNum(2), StrLit("a"), NVar("o"), NVar("s"), NNull, NVar("zz"), NVar("m")}
-Bases == IF BaseMode = "mid" THEN UNION {Core(x) \cup WTpl(x) \cup WFor(x) \cup WSplat(x) \cup WCall(x) \cup WIndex(x) \cup WObject(x) : x \in MidLeaves}
+Bases == IF BaseMode = "tiny" THEN Core(NVar("l")) \cup WTpl(NVar("l")) \cup WFor(NVar("l"))
+         ELSE IF BaseMode = "mid" THEN UNION {Core(x) \cup WTpl(x) \cup WFor(x) \cup WSplat(x) \cup WCall(x) \cup WIndex(x) \cup WObject(x) : x \in MidLeaves}
          ELSE IF BaseMode = "few" THEN UNION {Core(x) : x \in FewLeaves} \cup UNION {WTpl(x) \cup WFor(x) \cup WSplat(x) : x \in {NVar("l")}}
          ELSE UNION {AllWraps(x) : x \in Leaves}
 
